@@ -244,6 +244,9 @@ func (group *Group) broadcastByRtmpMsg(msg base.RtmpMsg) {
 		group.customizeHookSessionContext.OnMsg(msg)
 	}
 
+	// metadata、视频seq header、音频seq header
+	isHeaderMsg := msg.Header.MsgTypeId == base.RtmpTypeIdMetadata || msg.IsVideoKeySeqHeader() || msg.IsAacSeqHeader()
+
 	// # 广播。遍历所有 rtmp sub session，转发数据
 	// ## 如果是新的 sub session，发送已缓存的信息
 	for session := range group.rtmpSubSessionSet {
@@ -282,6 +285,11 @@ func (group *Group) broadcastByRtmpMsg(msg base.RtmpMsg) {
 			}
 
 			session.IsFresh = false
+		}
+
+		if session.ShouldWaitVideoKeyFrame && isHeaderMsg {
+			// 等待关键帧的sub session也需要收到最新的metadata和seq header，否则等到关键帧时，手上的头信息可能已经过期（或者缺失）
+			_ = session.Write(lazyRtmpChunkDivider.GetEnsureWithoutSdf())
 		}
 
 		if session.ShouldWaitVideoKeyFrame && msg.IsVideoKeyNalu() {
@@ -366,6 +374,8 @@ func (group *Group) broadcastByRtmpMsg(msg base.RtmpMsg) {
 			if msg.IsVideoKeyNalu() {
 				session.Write(lazyRtmpMsg2FlvTag.GetEnsureWithoutSdf())
 				session.ShouldWaitVideoKeyFrame = false
+			} else if isHeaderMsg {
+				session.Write(lazyRtmpMsg2FlvTag.GetEnsureWithoutSdf())
 			}
 		} else {
 			session.Write(lazyRtmpMsg2FlvTag.GetEnsureWithoutSdf())
